@@ -66,7 +66,8 @@ def check_circuit(recipe, env, maxph, acc):
         ds = {}
         for be in ("permanent", "slos"):
             acc.tick("executions"); acc.tick("transitions")
-            s = emu.Sampler(c, lw.State(list(vin)), backend=be)
+            # the name as it arrives from a config file or a command line: equal to the literal, not the same object
+            s = emu.Sampler(c, lw.State(list(vin)), backend="".join(list(be)))
             ds[be], _ = compare(s.probability_distribution, ref, fold, n_inj, c.n_modes, be, case, acc)
         tf = sum(fold.values())
         for t in set(ds["permanent"]) | set(ds["slos"]):
